@@ -48,6 +48,7 @@ inductive Ev where
   | requestCut (r : Nat)              -- … whose exchange is interrupted by a transport failure
   | kill                              -- the transport fails (every resume exchange still unanswered is cut with it)
   | dial (ok : Bool)                  -- the outcome of the redial attempt in progress
+  | backoff                           -- the back-off after a failed attempt has elapsed: the next attempt starts
   | resume (sid : Nat) (a : ResumeAnswer)
   | closeStream (sid : Nat)
   | close
@@ -55,6 +56,7 @@ deriving Repr, DecidableEq
 
 structure St where
   status : Status := .connected
+  attempting : Bool := false           -- a redial attempt is in progress (token fetched, dial under way)
   inc : Nat := 1                       -- transports established so far
   dials : Nat := 1                     -- connect attempts started so far
   tokens : Nat := 1                    -- token source calls so far
@@ -90,7 +92,7 @@ def detach (s : Stream) : Stream :=
 def loseTransport (s : St) : St :=
   match s.status with
   | .connected => { s with status := .reconnecting, disc := s.disc + 1, streams := s.streams.map detach,
-                            dials := s.dials + 1, tokens := s.tokens + 1 }   -- the first redial attempt starts at once
+                            attempting := true, dials := s.dials + 1, tokens := s.tokens + 1 }   -- the first redial attempt starts at once
   | _ => s
 
 /-- streams opened by the requests that waited for the recovery -/
@@ -123,12 +125,19 @@ def step (s : St) : Ev → St
   | .dial ok =>
     match s.status with
     | .reconnecting =>
-      if ok then
-        { s with status := .connected, inc := s.inc + 1, reconn := s.reconn + 1,
-                 sent := s.sent ++ s.pending.map (fun r => (s.inc + 1, r)), pending := [],
-                 streams := s.streams ++ openPending s.nextSid s.pendingOpens, nextSid := s.nextSid + s.pendingOpens.length,
-                 pendingOpens := [] }
-      else { s with dials := s.dials + 1, tokens := s.tokens + 1 }   -- the attempt failed: the next one starts (after the back-off)
+      if s.attempting then
+        if ok then
+          { s with status := .connected, attempting := false, inc := s.inc + 1, reconn := s.reconn + 1,
+                   sent := s.sent ++ s.pending.map (fun r => (s.inc + 1, r)), pending := [],
+                   streams := s.streams ++ openPending s.nextSid s.pendingOpens, nextSid := s.nextSid + s.pendingOpens.length,
+                   pendingOpens := [] }
+        else { s with attempting := false }   -- the attempt failed: the client backs off
+      else s
+    | _ => s
+  | .backoff =>
+    match s.status with
+    | .reconnecting =>
+      if s.attempting then s else { s with attempting := true, dials := s.dials + 1, tokens := s.tokens + 1 }
     | _ => s
   | .resume sid a =>
     match s.status with
@@ -148,7 +157,7 @@ def step (s : St) : Ev → St
     match s.status with
     | .closed => s
     | st => { s with status := .closed, streams := s.streams.map endWithConn, failed := s.failed ++ s.pending, pending := [],
-                     pendingOpens := [], disconnectSent := s.disconnectSent + 1,
+                     pendingOpens := [], attempting := false, disconnectSent := s.disconnectSent + 1,
                      disc := if st = .connected then s.disc + 1 else s.disc }   -- the run loop of a live connection ends: disconnected
 
 def run (s : St) (evs : List Ev) : St := evs.foldl step s
@@ -168,11 +177,12 @@ def recoveries : St → List Ev → Nat
   | _, [] => 0
   | s, e :: es => (if s.status = .reconnecting ∧ (step s e).status = .connected then 1 else 0) + recoveries (step s e) es
 
-/-- redial attempts started in an event history: one when an outage begins, one more after every failed attempt -/
+/-- redial attempts started in an event history: one when an outage begins, one more whenever a back-off elapses while the
+    connection is still reconnecting and no attempt is in progress -/
 def attempts : St → List Ev → Nat
   | _, [] => 0
   | s, e :: es =>
     (if s.status = .connected ∧ (step s e).status = .reconnecting then 1 else 0) +
-    (match e with | .dial false => if s.status = .reconnecting then 1 else 0 | _ => 0) + attempts (step s e) es
+    (match e with | .backoff => if s.status = .reconnecting ∧ s.attempting = false then 1 else 0 | _ => 0) + attempts (step s e) es
 
 end Iscp.ConnM
